@@ -266,6 +266,8 @@ def gen_histories(run, n, nops, caps, stats):
             ops, fam = c15_gen.malformed_history(run.rng, nops, stats, g), "malformed"
         elif c < 0.5:
             ops, fam = g.resize_history(nops), "resize-inside-op"
+        elif c < 0.62:
+            ops, fam = g.shared_copy_history(nops), "shared-copy"
         else:
             ops, fam = g.history(nops), "mixed"
         stats["family:" + fam] = stats.get("family:" + fam, 0) + 1
@@ -455,7 +457,8 @@ def probe_cfg(harness):
 
 def main():
     run = Run(PROP, "proof")
-    run.cov["rule"] = ("cases are operation histories (one fresh engine Context each) from four seeded families: mixed (buffers, views, "
+    run.cov["rule"] = ("cases are operation histories (one fresh engine Context each) from five seeded families (the fifth, shared-copy: copyWithin / set / "
+                       "slice on views of one SharedArrayBuffer over all (from mod 8, to mod 8, count) classes and both directions): mixed (buffers, views, "
                        "element/DataView access, bulk ops, resizes/detaches also from inside argument valueOf), conversion-focused (boundary "
                        "Numbers/BigInts through all element kinds), resize-inside-op (length-tracking/fixed views of one resizable buffer, every "
                        "bulk/element op shrinking, growing or detaching it from inside an argument) and malformed/edge (empty slots, wrong view "
